@@ -65,6 +65,10 @@ def lossy(ctx, R, py, modules):
                         bad.append((x, ".astype(%s)" % pyfe.src(x.args[0])))
                     elif _fmt_spec(x):
                         bad.append((x, "fixed-precision formatting"))
+                    for k_ in x.keywords:
+                        if k_.arg == "dtype" and pyfe.src(k_.value).replace("'", "").replace('"', "").split(".")[-1] in (
+                                "float32", "float16", "half", "single", "f4", "f2", "float_", "longdouble", "int8", "int16", "uint8"):
+                            bad.append((x, "narrow element type %s" % pyfe.src(k_.value)))
                 elif _fmt_spec(x):
                     bad.append((x, "fixed-precision formatting"))
             n += 1
@@ -295,6 +299,31 @@ def query(ctx, R, py, modules):
 CX_PROPS = {"C01", "C02", "C03", "C09", "C10", "C14", "C15"}
 
 
+def memo(ctx, R, py, modules):
+    """MEMO -- nothing in the package is memoised: every function recomputes its result from its arguments and from the current
+    state of the objects it is given.  A cache decorator (functools.lru_cache / cache / cached_property) or a module-level
+    dictionary filled by a function hands out one shared mutable object to every caller and keeps answering for a model that
+    has been edited since (species, environments, files re-written under the same name)."""
+    n = 0
+    for mn in modules:
+        m = py.mods.get(mn)
+        ctx.need(m is not None, R, "module %s not found" % mn)
+        fns = []
+        for f in m.funcs.values():
+            fns.append(f)
+            fns += [x for x in ast.walk(f) if isinstance(x, ast.FunctionDef) and x is not f]
+        for f in fns:
+            n += 1
+            decs = [pyfe.src(d) for d in f.decorator_list]
+            bad = [d for d in decs if any(k in d for k in ("lru_cache", "functools.cache", "cached_property", "memoize", "memoise"))
+                   or d in ("cache",)]
+            q = getattr(f, "_qual", mn + "." + f.name)
+            ctx.check(not bad, R, f, q, "decorators of %s: %s" % (f.name, decs or "none"), "no memoisation",
+                      "`@%s`: the function's results are cached and shared; a caller that edits the returned object, or a model / "
+                      "file that changes between two calls, silently gets the old answer" % (bad[0] if bad else ""), nontrivial=False)
+    return n
+
+
 def run(ctx, pid, py, modules, truth_floor=1):
     from . import truth
     truth.rule(ctx, pid + ".TRUTH", py, modules, floor=truth_floor)
@@ -303,6 +332,7 @@ def run(ctx, pid, py, modules, truth_floor=1):
     acc(ctx, pid + ".ACC", py, modules)
     copies(ctx, pid + ".COPY", py, modules)
     query(ctx, pid + ".QUERY", py, modules)
+    memo(ctx, pid + ".MEMO", py, modules)
     from . import argorder
     argorder.rule(ctx, pid + ".ARGS", py_modules=modules, cx=pid in CX_PROPS)
     nn = names(ctx, pid + ".NAMES", py, modules)
